@@ -324,3 +324,23 @@ def as_value(kind, term):
         if lit is not None and all(e.op == "int" and 0 <= e.val < 256 for e in lit):
             return bytes(e.val for e in lit)
     return Sym(kind, term)
+
+
+def dhas(st, d, k):
+    """j.dhas(d, k) with the cardinality axiom instantiated for the constant keys asked so far:
+    distinct present keys are counted by j.dlen (sum of presence indicators <= dlen)."""
+    t = j_dhas(d, k)
+    if k.op == "str" and st is not None:
+        reg = getattr(st, "jkeys", None)
+        if reg is None:
+            reg = st.jkeys = {}
+        keys = reg.get(d, ())
+        if k not in keys:
+            keys = keys + (k,)
+            reg[d] = keys
+            if len(keys) > 1:
+                total = tm.Add(*[tm.Ite(j_dhas(d, kk), tm.Int(1), tm.Int(0)) for kk in keys])
+                st.assume(tm.Le(total, j_dlen(d)))
+            else:
+                st.assume(tm.Implies(j_dhas(d, k), tm.Le(tm.Int(1), j_dlen(d))))
+    return t
